@@ -1,10 +1,11 @@
-"""Thorough-only extras for C01: instruction-count scaling under cachegrind and a Miri shard."""
+"""Extras for C01: instruction-count scaling under cachegrind, valgrind memcheck slices, and (thorough) a Miri shard."""
 import sanit
 
 
 def run(drv, seed):
     extra, viol, inc = {}, [], []
-    for fn in (lambda: sanit.cachegrind_scaling(drv, n_small=4000, factor=4, deep=True, builds=("rel-plain", "rel-ms")), lambda: sanit.miri(drv, "C19", seed, nproc=8, per=30, many_seeds=0)):
+    for fn in (lambda: sanit.cachegrind_scaling(drv, n_small=4000, factor=4, deep=True, builds=("rel-plain", "rel-ms")), lambda: sanit.memcheck(drv, "C19", seed, nproc=16, per=8000),
+               lambda: sanit.miri(drv, "C19", seed, nproc=8, per=30, many_seeds=0)):
         e, v, i = fn()
         extra.update(e)
         viol += [(b, dict(x, sig=x["sig"].replace("C19.", "C01."), rule=x["rule"].replace("C19.", "C01."))) for b, x in v]
@@ -15,4 +16,9 @@ def run(drv, seed):
 def quick(drv, seed):
     """Quick tier: instruction-count scaling of all families on the macro_sep release build
     (a superset of the default configuration's code paths); deterministic, ~10 s."""
-    return sanit.cachegrind_scaling(drv, n_small=1000, factor=4, step=1, builds=("rel-ms",))
+    extra, viol, inc = sanit.cachegrind_scaling(drv, n_small=1000, factor=4, step=1, builds=("rel-ms",))
+    # memory-error monitor on a short slice of the cross-build input sequence (~10 s)
+    e, v, i = sanit.memcheck(drv, "C19", seed, nproc=16, per=500)
+    extra.update(e)
+    viol += [(b, dict(x, sig=x["sig"].replace("C19.", "C01."), rule=x["rule"].replace("C19.", "C01."))) for b, x in v]
+    return extra, viol, inc + i
